@@ -144,10 +144,14 @@ impl CacheObliviousSort {
     fn funnel_sort_recursive<T: Clone + Ord>(&mut self, data: &mut [T], k: usize) -> Result<()> {
         let n = data.len();
         
-        if n <= self.config.small_threshold {
+        if n <= self.config.small_threshold || n < 2 {
             self.insertion_sort(data);
             return Ok(());
         }
+
+        // A funnel of width 1 (sqrt of widths 2 and 3, or a one-element slice) would recurse on
+        // the whole slice forever; more sublists than elements would leave empty sublists
+        let k = k.max(2).min(n);
 
         // Calculate optimal subdivision parameters
         let sqrt_k = (k as f64).sqrt() as usize;
